@@ -14,6 +14,8 @@ def load():
     return m.CLAIMED, m.NOT_APPLICABLE, m.HOOK_COMMITS
 
 claimed, na, hooks = load()
+import subprocess
+hooks = [l.split()[0] for l in subprocess.run(["git","-C","/repo","log","--format=%h %s"],capture_output=True,text=True).stdout.splitlines() if l.split(" ",1)[1].startswith("verif:")]
 checks = []
 for pid in sorted(claimed):
     tech, text, note, ref = claimed[pid]
